@@ -172,6 +172,13 @@ fn run_regfiles(files: &[RegFile], null_sp_threads: usize) -> (Value, Vec<(Strin
     for (i, rf) in files.iter().enumerate() {
         exp.push(setup_thread(&mut p, i, rf));
     }
+    // every third thread gets a kernel name that is not valid UTF-8 (its name is unreadable; the
+    // thread itself must still be listed)
+    for (i, e) in exp.iter().enumerate() {
+        if i % 3 == 1 {
+            p.set_name(e.tid, if i % 2 == 0 { b"\xff\xfe" } else { b"caf\xe9-latin1" });
+        }
+    }
     // sandbox-helper look-alikes: spin threads with a null stack pointer
     for k in 0..null_sp_threads {
         let t = p.mkthread(Kind::Spin);
